@@ -10,12 +10,16 @@ import (
 	"crypto/sha512"
 	"fmt"
 	"io/ioutil"
+	"math/big"
 	"os"
 	"path/filepath"
 	"regexp"
 	"strings"
 
 	"github.com/oasisprotocol/ed25519"
+	"github.com/oasisprotocol/ed25519/internal/ge25519"
+	"github.com/oasisprotocol/ed25519/internal/modm"
+	ref "github.com/oasisprotocol/ed25519/internal/zzverifref"
 	rt "github.com/oasisprotocol/ed25519/internal/zzverifrt"
 )
 
@@ -103,6 +107,34 @@ var c20scenarios = []c20scenario{
 	// property lists (until fix F5 it ran inside golang.org/x/crypto); it is traced because the ladder
 	// now lives in this library, and a divergence is recorded in the evidence, not raised
 	{"advisory: X25519 generic ladder", func(t bool) [][]byte { return nibScalars(t) }, nil, func(s []byte, _ interface{}) { X25519(s, c20fixedPoint) }},
+	// layer level: the scalar operations that sign() and NewKeyFromSeed apply to secret values, on a
+	// BOUNDARY alphabet of those values (through the API they are hash outputs: a value-dependent
+	// branch that needs a 2^-200 event would never show there)
+	{"layer: modm.Expand(64-byte secret)", func(bool) [][]byte { return boundaryBytes(64) }, nil, func(s []byte, _ interface{}) {
+		var x modm.Bignum256
+		modm.Expand(&x, s)
+	}},
+	{"layer: modm.Expand(32-byte secret)", func(bool) [][]byte { return boundaryBytes(32) }, nil, func(s []byte, _ interface{}) {
+		var x modm.Bignum256
+		modm.Expand(&x, s)
+	}},
+	{"layer: S = r + h*a (Mul, Add, Contract)", func(bool) [][]byte { return boundaryBytes(32) }, nil, func(s []byte, _ interface{}) {
+		var r, a, S modm.Bignum256
+		var out [32]byte
+		modm.Expand(&r, s)
+		modm.Expand(&a, s[:16])
+		modm.Mul(&S, &c20h, &a)
+		modm.Add(&S, &S, &r)
+		modm.Contract(out[:], &S)
+	}},
+	{"layer: fixed-base multiplication of a reduced secret", func(bool) [][]byte { return boundaryBytes(32) }, nil, func(s []byte, _ interface{}) {
+		var r modm.Bignum256
+		var p ge25519.Ge25519
+		var out [32]byte
+		modm.Expand(&r, s)
+		ge25519.ScalarmultBaseNiels(&p, &ge25519.NielsBaseMultiples, &r)
+		ge25519.Pack(out[:], &p)
+	}},
 	{"PrivateKey.Public/Seed", seedSecrets, func(s []byte) interface{} { return stdKey(s) }, func(s []byte, k interface{}) {
 		k.(ed25519.PrivateKey).Public()
 		k.(ed25519.PrivateKey).Seed()
@@ -261,4 +293,47 @@ func scanAsm(c *rt.Ctx) {
 		}
 	}
 	c.Extra("asm_instructions_scanned", int64(n))
+}
+
+// c20h: a fixed public scalar (the hash h of the signing equation is public).
+var c20h = func() modm.Bignum256 {
+	var h modm.Bignum256
+	b := sha512.Sum512([]byte("c20 public h"))
+	modm.Expand(&h, b[:])
+	return h
+}()
+
+// boundaryBytes: little-endian n-byte strings at and around every boundary of the scalar code: 0,
+// small values, 2^k and 2^k - 1 for every limb boundary of both layouts and for 248 / 252 / 253 / 255,
+// multiples of L and their neighbours, all-ones, and hash-derived values.
+func boundaryBytes(n int) [][]byte {
+	var out [][]byte
+	add := func(v *big.Int) {
+		v = new(big.Int).Mod(v, new(big.Int).Lsh(big.NewInt(1), uint(8*n)))
+		out = append(out, ref.ToLE(v, n))
+	}
+	for _, k := range []int64{0, 1, 2, 7, 8, 255, 256} {
+		add(big.NewInt(k))
+	}
+	for _, bit := range []uint{30, 56, 60, 90, 112, 120, 150, 168, 180, 210, 224, 240, 248, 251, 252, 253, 254, 255, 256, 264, 300, 504, 511} {
+		if int(bit) > 8*n {
+			continue
+		}
+		p := new(big.Int).Lsh(big.NewInt(1), bit)
+		add(p)
+		add(new(big.Int).Sub(p, big.NewInt(1)))
+		add(new(big.Int).Add(p, big.NewInt(1)))
+	}
+	for _, m := range []int64{1, 2, 3, 8, 15, 16} {
+		ml := new(big.Int).Mul(ref.L, big.NewInt(m))
+		add(ml)
+		add(new(big.Int).Sub(ml, big.NewInt(1)))
+		add(new(big.Int).Add(ml, big.NewInt(1)))
+	}
+	add(new(big.Int).Sub(new(big.Int).Lsh(big.NewInt(1), uint(8*n)), big.NewInt(1)))
+	for i := 0; i < 64; i++ {
+		h := sha512.Sum512([]byte{0xC0, byte(i), byte(n)})
+		out = append(out, append([]byte{}, h[:n]...))
+	}
+	return out
 }
